@@ -187,6 +187,15 @@ type c06P5 struct {
 	} `positional-args:"yes"`
 }
 
+type c06P6 struct {
+	O   bool `short:"o"`
+	R   bool `short:"r" long:"rr" required:"true"`
+	Pos struct {
+		First  string
+		Second string
+	} `positional-args:"yes" required:"yes"`
+}
+
 // H_C06_positional: positional count constraints (required, N, N-M).
 func H_C06_positional(v *V) {
 	decl := v.Shape("decl")
@@ -213,6 +222,24 @@ func H_C06_positional(v *V) {
 	p := NewNamedParser("prog", PassDoubleDash)
 	var okWant bool
 	var named, notNamed []string
+	if decl == 6 {
+		// a required option beside required positionals: a missing option is
+		// what the message names; the positionals only when no option is missing
+		supplied := v.Choice(2) == 1
+		if supplied {
+			argv = append([]string{"-r"}, argv...)
+		}
+		p.AddGroup("Application Options", "", &c06P6{})
+		okWant = supplied && n >= 2
+		switch {
+		case !supplied:
+			named, notNamed = []string{"rr"}, []string{"First", "Second"}
+		case n == 0:
+			named, notNamed = []string{"First", "Second"}, []string{"rr"}
+		case n == 1:
+			named, notNamed = []string{"Second"}, []string{"First", "rr"}
+		}
+	}
 	switch decl {
 	case 1:
 		p.AddGroup("Application Options", "", &c06P1{})
